@@ -967,9 +967,23 @@ def concurrent_ends(ctx, share):
         k += 1
     ctx.count('concurrent_end_schedules',
               ctx.counters.get('schedules_run', 0) - n0)
+    # a client is removed while other clients change the room table of its
+    # namespace (statement-level schedules of C03's scheduler part): nothing
+    # raises and the departed client is in no room
+    from checks import c03_sched
+    for racers in (['sdisc', 'enter_new'], ['lose', 'leave_last'],
+                   ['sdisc', 'connect_new']):
+        if ctx.too_many_violations():
+            break
+        c03_sched.explore_self(ctx, racers,
+                               150 if ctx.tier == 'quick' else 5000,
+                               bound=1, lines=True)
 
 
 def replay(ctx, w):
+    if w['witness'].get('part') == 'self_race':
+        from checks import c03_sched
+        return c03_sched.replay(ctx, w)
     if 'causes' in w['witness'] and 'choices' in w['witness']:
         from checks import c20
         wi = w['witness']
